@@ -49,20 +49,11 @@ theorem goodFrame_wf : okBegin bs44 = true ∧ WFFrame bs44 goodFrame :=
 
 def gA : Bytes := [56, 61, 70, 73, 88, 46, 52, 46, 52, 1, 57, 61, 49, 55, 1, 51, 53, 61, 48, 1, 52, 57, 61, 83]
 def gB : Bytes := [1, 51, 52, 61, 49, 48, 48, 1, 49, 48, 61, 48, 49, 48, 1]
-def gC : Bytes := [56, 61, 70, 73, 88, 46, 52, 46, 52, 1, 57, 61, 49, 55, 1, 51, 53, 61, 48, 1, 52, 57, 61, 83,
-  1, 51, 52, 61, 49, 48, 48, 1, 49, 48, 61]
-def gD : Bytes := [49, 48, 1]
 
 theorem goodFrame_eq : goodFrame = gA ++ gB := by decide +kernel
-theorem goodFrame_eq2 : goodFrame = gC ++ 48 :: gD := by decide +kernel
 
 /-- `…49=S\0|34=100|10=010|` -/
 def nulFrame : Bytes := gA ++ 0 :: gB
-/-- `…|10=+10|` -/
-def plusFrame : Bytes := gC ++ 43 :: gD
-/-- `…|10=10|` -/
-def delFrame : Bytes := gC ++ gD
-
 /-- C10-bodylength-not-verified, single-byte form: a NUL inserted into a value (`49=S` → `49=S\0`)
 keeps the byte sum, so the frame – one byte longer than its BodyLength says – is returned. -/
 theorem nul_insertion_returned : ¬ C10_corruption_full := by
@@ -70,26 +61,6 @@ theorem nul_insertion_returned : ¬ C10_corruption_full := by
   have he : Edit1 goodFrame nulFrame := by
     rw [goodFrame_eq]; exact Edit1.insert _ _ 0 (by decide)
   obtain ⟨m, hm⟩ : ∃ m, decode bs44 [] nulFrame = .msg m 39 nulFrame :=
-    DecRes.of_msgOf (by decide +kernel)
-  exact h bs44 [] _ _ goodFrame_wf.1 goodFrame_wf.2 he _ m 39 hm
-
-/-- C10-lenient-int-in-checksum: `10=010` → `10=+10` (one substitution inside the CheckSum value)
-is returned, because the value is read with Python's `int()`. -/
-theorem lenient_checksum_subst_returned : ¬ C10_corruption_full := by
-  intro h
-  have he : Edit1 goodFrame plusFrame := by
-    rw [goodFrame_eq2]; exact Edit1.subst _ _ 48 43 (by decide) (by decide)
-  obtain ⟨m, hm⟩ : ∃ m, decode bs44 [] plusFrame = .msg m 39 plusFrame :=
-    DecRes.of_msgOf (by decide +kernel)
-  exact h bs44 [] _ _ goodFrame_wf.1 goodFrame_wf.2 he _ m 39 hm
-
-/-- C10-lenient-int-in-checksum, deletion form: `10=010` → `10=10`; returned as soon as one more
-byte (here the `8=` of the next frame) is buffered – and the decoder then consumes one of them too. -/
-theorem lenient_checksum_delete_returned : ¬ C10_corruption_full := by
-  intro h
-  have he : Edit1 goodFrame delFrame := by
-    rw [goodFrame_eq2]; exact Edit1.delete _ _ 48
-  obtain ⟨m, hm⟩ : ∃ m, decode bs44 [] (delFrame ++ [56, 61]) = .msg m 39 delFrame :=
     DecRes.of_msgOf (by decide +kernel)
   exact h bs44 [] _ _ goodFrame_wf.1 goodFrame_wf.2 he _ m 39 hm
 
